@@ -1,10 +1,69 @@
 import Driver.Util
+import Hv.Misc.Settings
 
-/-! Placeholder: the line-protocol driver of domain C21 is not written yet. -/
+/-! Line-protocol driver for the settings model (domain C21).  Same ops and reply format as
+    `/verif/harness/c21.go`.  For `get` the model answers every result SOME iteration order of
+    the map can produce (`Hv.Settings.possible`); the harness answers the distinct results seen
+    in 300 lookups.  A reply carries `#F:C21-map-order-lookup` when two possible results differ
+    in their settings, and `#F:C21-restart-loses-field` when the possible results differ from
+    those of the registry as it was before the last restart. -/
 namespace Driver.C21
+open Hv.Name Hv.Settings
 
-def run (_args : List String) : IO UInt32 := do
-  IO.eprintln "drv: domain C21 has no driver yet"
-  return 2
+structure DSt where
+  cfg : Cfg
+  reg : List Entry
+  pre : Option (List Entry)   -- registry before the last restart, while no reg/dereg followed
+
+def lookupOf (s : String) : Lookup :=
+  if s == "iteratesMap" then .iteratesMap else if s == "ranked" then .ranked else .unknown
+def cmpOf (s : String) : Cmp :=
+  if s == "gt" then .gt else if s == "ge" then .ge else if s == "lt" then .lt else if s == "le" then .le else .unknown
+def yes (s : String) : Bool := s == "yes"
+
+def bytesOf (s : String) : Bytes := s.toUTF8.toList
+def strOf (b : Bytes) : String := String.ofList (b.map (fun c => Char.ofNat c.toNat))
+
+def render (e : Entry) : String :=
+  s!"{strOf e.pat.s}/{strOf e.pat.r}/{strOf e.pat.w}|{if e.f.inMem then "M" else "P"}|{e.f.idle}|{e.f.wi}|{e.f.size}"
+
+def sortStrings (l : List String) : List String := (l.toArray.qsort (· < ·)).toList
+
+def results (cfg : Cfg) (reg : List Entry) (n : Name) : List String :=
+  sortStrings ((possible cfg reg n).map render).eraseDups
+
+def step (d : DSt) (line : String) : DSt × String :=
+  match line.splitOn " " with
+  | ["case", _] => ({ d with reg := [], pre := none }, line)
+  | ["reg", s, r, w, m, idle, wi, size] =>
+    match idle.toInt?, wi.toInt?, size.toInt? with
+    | some i, some v, some z =>
+      if m != "M" && m != "P" then (d, "bad-op") else
+      ({ d with reg := register d.reg ⟨bytesOf s, bytesOf r, bytesOf w⟩ (m == "M") i v z, pre := none }, "ok")
+    | _, _, _ => (d, "bad-op")
+  | ["dereg", s, r, w] =>
+    ({ d with reg := deregister d.reg ⟨bytesOf s, bytesOf r, bytesOf w⟩, pre := none }, "ok")
+  | ["get", s, r, w] =>
+    let n : Name := ⟨bytesOf s, bytesOf r, bytesOf w⟩
+    let ps := possible d.cfg d.reg n
+    let rs := results d.cfg d.reg n
+    let f1 := if (ps.map (·.f)).eraseDups.length > 1 then "\t#F:C21-map-order-lookup" else ""
+    let f2 := match d.pre with
+      | some old => if results d.cfg old n != rs then "\t#F:C21-restart-loses-field" else ""
+      | none => ""
+    (d, "res " ++ " ".intercalate rs ++ f1 ++ f2)
+  | ["restart"] =>
+    let old := match d.pre with | some o => o | none => d.reg
+    ({ d with reg := reload d.cfg d.reg, pre := some old }, "ok")
+  | _ => (d, "bad-op")
+
+def run (args : List String) : IO UInt32 := do
+  let kv := parseArgs args
+  let cfg : Cfg :=
+    ⟨lookupOf (arg kv "lookup"), cmpOf (arg kv "cmp"),
+     ((arg kv "wRealm").toInt?).getD 0, ((arg kv "wSwamp").toInt?).getD 0,
+     yes (arg kv "persistsInMem"), yes (arg kv "persistsIdle"), yes (arg kv "persistsWi"), yes (arg kv "persistsSize")⟩
+  lineLoop step ⟨cfg, [], none⟩
+  return 0
 
 end Driver.C21
